@@ -246,11 +246,11 @@ Definition add_sub_covariates (a b : list cstmt) (add : bool) : res (list effect
   | _ :: _, [] => Ok lhs
   | [], [] => Ok []
   end.
-(* _eq_covariate: all(c in rhs for c in lhs) *)
+(* _eq_covariate: lhs == rhs on the two effect sets (fix 0aa11f5; it was all(c in rhs for c in lhs)) *)
 Definition eq_covariate (a b : list cstmt) : res bool :=
   do lhs <- extract_covariates a;
   do rhs <- extract_covariates b;
-  Ok (forallb (fun x => memE x rhs) lhs).
+  Ok (forallb (fun x => memE x rhs) lhs && forallb (fun x => memE x lhs) rhs).
 
 (* ---- ModelFeatures.create: a PK space gets its default features ---- *)
 Definition default_transits : pstmt := mkP (MList [0]) (MList [s_DEPOT]).
@@ -381,11 +381,12 @@ Definition printed (l : list vstmt) : list vstmt := map (fun s => mkV false (v_f
 (* guard: no forced statement goes through a LET reference *)
 Definition g_let_not_forced (l : list vstmt) : bool := forallb (fun s => negb (v_ref s && v_forced s)) l.
 
-(* ---- Transits.__eq__ returns the pair (set(counts) equal, depot equal) instead of a truth value ---- *)
-Definition transits_stmt_eq (a b : pstmt) : option (bool * bool) :=
+(* ---- Transits.__eq__ (fix 67f03bc: the conjunction; it was the pair of the two tests):
+   set(self.counts) == set(other.counts) and lhs_depot == rhs_depot, a Wildcard depot only equals a Wildcard ---- *)
+Definition transits_stmt_eq (a b : pstmt) : option bool :=
   match p_vals a, p_vals b with
   | MList c1, MList c2 =>
-      Some (seteqN c1 c2,
+      Some (seteqN c1 c2 &&
             match p_keys a, p_keys b with
             | MWild, MWild => true
             | MList d1, MList d2 => seteqN d1 d2
@@ -393,8 +394,6 @@ Definition transits_stmt_eq (a b : pstmt) : option (bool * bool) :=
             end)
   | _, _ => None
   end.
-(* bool(x) of a 2-tuple *)
-Definition pair_truth (p : bool * bool) : bool := true.
 
 (* ---- least_number_of_transformations(other, tool='modelsearch') : the keys of the returned dict ----
    For TRANSITS the count is `rhs[key][0]`, the first element of a tuple(set(...)): any element of that set;
@@ -428,16 +427,12 @@ Definition lnt_transits (a b : list pstmt) : res (list lnt_item) :=
     end
   else Ok [].
 Fixpoint minN (l : list N) (d : N) : N := match l with [] => d | x :: tl => N.min x (minN tl x) end.
-(* _lnt_peripherals(other, lnt, "pk"): because of `if subset == "pk": ... if subset == "metabolite": ... else:`
-   the keys are ["DRUG", "MET"] for "pk" as well *)
+(* _lnt_peripherals(other, lnt, "pk"): keys = ["DRUG"] (fix 78f8b1d made the second test an elif) *)
 Definition lnt_peripherals (a b : list pstmt) : res (list lnt_item) :=
   do l <- extract_peripherals a [] [];
   do r <- extract_peripherals b [] [];
-  let drug := if existsb (fun c => memN c (snd r)) (snd l) then []
-              else match snd r with [] => [] | x :: _ => [LKey [AS s_PERIPHERALS; AI (Z.of_N (minN (snd r) x))]] end in
-  let met := if existsb (fun c => memN c (fst r)) (fst l) then []
-             else match fst r with [] => [] | x :: _ => [LKey [AS s_PERIPHERALS; AI (Z.of_N (minN (fst r) x)); AS s_METABOLITE]] end in
-  Ok (drug ++ met).
+  Ok (if existsb (fun c => memN c (snd r)) (snd l) then []
+      else match snd r with [] => [] | x :: _ => [LKey [AS s_PERIPHERALS; AI (Z.of_N (minN (snd r) x))]] end).
 Definition lnt_modelsearch (a b : mf) : res (list lnt_item) :=
   do k1 <- lnt_modes s_ABSORPTION w_absorption (absorption a) (absorption b);
   do k2 <- lnt_modes s_ELIMINATION w_elimination (elimination a) (elimination b);
